@@ -21,6 +21,7 @@ import (
 	"strconv"
 	"strings"
 	"testing"
+	"time"
 	"unicode/utf8"
 
 	"pgregory.net/rapid"
@@ -43,6 +44,9 @@ type Prop[C any] struct {
 	Gen    func(*rapid.T) C // nil for enumerated / fuzzed sub-checks
 	Run    func(C) Verdict
 	Render func(C) any // how a case looks in evidence samples (default: the case itself)
+	// Minimize, when set, is applied to the case rapid shrank to: it proposes smaller cases and keeps those for
+	// which stillFails holds (structural delta debugging; rapid shrinks the random stream, not the structure).
+	Minimize func(c C, stillFails func(C) bool) C
 }
 
 type replayFile struct {
@@ -236,7 +240,28 @@ var captureMode = os.Getenv("VERIF_CAPTURE") == "1"
 func Check[C any](t *testing.T, p Prop[C]) {
 	t.Helper()
 	st := newStats(p.ID, p.Name)
+	var lastFail *C
 	defer st.flush()
+	defer func() { // rapid ends a failing test with FailNow: the structural minimisation runs on the way out
+		if !st.Failed || lastFail == nil || p.Minimize == nil {
+			return
+		}
+		prefix := failKind(st.FailMsg)
+		deadline := time.Now().Add(45 * time.Second)
+		small := p.Minimize(*lastFail, func(c C) bool {
+			if time.Now().After(deadline) {
+				return false
+			}
+			v := safeRun(p.Run, c)
+			return v.Fail != "" && failKind(v.Fail) == prefix
+		})
+		if v := safeRun(p.Run, small); v.Fail != "" {
+			if raw, err := json.Marshal(small); err == nil {
+				st.FailMsg = v.Fail
+				st.FailFile = writeFail(p.ID, p.Name, raw, v.Fail)
+			}
+		}
+	}()
 	render := p.Render
 	if render == nil {
 		render = func(c C) any { return c }
@@ -258,9 +283,22 @@ func Check[C any](t *testing.T, p Prop[C]) {
 			st.Failed = true
 			st.FailMsg = v.Fail
 			st.FailFile = writeFail(p.ID, p.Name, raw, v.Fail)
+			cc := c
+			lastFail = &cc
 			rt.Fatalf("%s/%s: %s", p.ID, p.Name, v.Fail)
 		}
 	})
+}
+
+// failKind is the part of a failure message that identifies the kind of failure (up to the first colon or newline).
+func failKind(msg string) string {
+	if i := strings.IndexAny(msg, ":\n"); i >= 0 {
+		msg = msg[:i]
+	}
+	if len(msg) > 60 {
+		msg = msg[:60]
+	}
+	return msg
 }
 
 // Enumerator feeds cases to Enumerate; it returns false when asked to stop.
